@@ -147,7 +147,7 @@ def run(tier, seed, replay):
     chk = None
     if tier == 'thorough' and okl:
         okc, logc, dtc = vlib.leanchecker('Rivia.Props.C04')
-        chk = dict(ok=okc, seconds=round(dtc, 1))
+        chk = dict(ok=okc, seconds=round(dtc, 1), scope=logc[:80])
         if not okc:
             proof_broken.append('leanchecker: ' + logc[-400:])
 
